@@ -322,7 +322,16 @@ class SpooledBytesIO(SpooledIOBase):
             return self.buffer.readline()
 
     def readlines(self, sizehint=0):
-        return self.buffer.readlines(sizehint)
+        # Not buffer.readlines(sizehint): BytesIO stops once the total reaches
+        # the hint, a TemporaryFile (IOBase.readlines) only once it exceeds it
+        lines = []
+        total = 0
+        for line in iter(self.buffer.readline, b''):
+            lines.append(line)
+            total += len(line)
+            if sizehint and 0 < sizehint <= total:
+                break
+        return lines
 
     def rollover(self):
         """Roll the StringIO over to a TempFile"""
